@@ -97,7 +97,22 @@ PLAN10 = {
  'WAI-m1': ('I', ['C10']), 'WAI-m2': ('I', ['C10']),
  'WAJ-m1': ('J', ['C12']), 'WAJ-m2': ('J', ['C12']),
 }
+PLAN11 = {
+ 'WBA-m1': ('A', ['C04']), 'WBA-m2': ('A', ['C04']),
+ 'WBB-m1': ('B', ['C06']), 'WBB-m2': ('B', ['C06']),
+ 'WBC-m1': ('C', ['C07']), 'WBC-m2': ('C', ['C07']),
+ 'WBD-m1': ('D', ['C08']), 'WBD-m2': ('D', ['C08']),
+ 'WBE-m1': ('E', ['C09']), 'WBE-m2': ('E', ['C09']),
+ 'WBF-m1': ('F', ['C01']), 'WBF-m2': ('F', ['C01']),
+ 'WBG-m1': ('G', ['C17']), 'WBG-m2': ('G', ['C17']),
+ 'WBH-m1': ('H', ['C19']), 'WBH-m2': ('H', ['C19']),
+ 'WBI-m1': ('I', ['C20']), 'WBI-m2': ('I', ['C20']),
+ 'WBJ-m1': ('J', ['C03']), 'WBJ-m2': ('J', ['C03']),
+}
 SRC = {}
+for k, (d, checks) in PLAN11.items():
+    PLAN[k] = checks
+    SRC[k] = f'/tmp/mut11-{d}/out/{k.split("-")[1]}'
 for k, (d, checks) in PLAN10.items():
     PLAN[k] = checks
     SRC[k] = f'/tmp/mut10-{d}/out/{k.split("-")[1]}'
